@@ -70,7 +70,7 @@ def _replay_c09(item):
     return bad
 
 
-def _mk_real_ghe(n1, n2, H, soil_k=2.0, pipe="single", months=12, amp=9000.0, h_bore=None):
+def _mk_real_ghe(n1, n2, H, soil_k=2.0, pipe="single", months=12, amp=9000.0, h_bore=None, gf_rb=None):
     import_repo()
     from ghedesigner.borehole import GHEBorehole  # noqa: PLC0415
     from ghedesigner.coordinates import rectangle  # noqa: PLC0415
@@ -96,7 +96,7 @@ def _mk_real_ghe(n1, n2, H, soil_k=2.0, pipe="single", months=12, amp=9000.0, h_
     nb = n1 * n2
     sp = SimulationParameters(1, months, 35.0, 5.0, 135.0, 60.0)
     m_flow = 0.3 / 1000.0 * fluid.rho
-    gfn = calc_g_func_for_multiple_lengths(5.0, [bore.H], bore.r_b, bore.D, m_flow, bt, eskilson_log_times(), coords, fluid, pp, grout, soil)
+    gfn = calc_g_func_for_multiple_lengths(5.0, [bore.H], bore.r_b if gf_rb is None else gf_rb, bore.D, m_flow, bt, eskilson_log_times(), coords, fluid, pp, grout, soil)
     if h_bore is not None:
         bore.H = h_bore       # the stored g-function stays the one computed for H; the exchanger is built at another height
     return GHE(0.3 * nb, 5.0, bt, fluid, bore, pp, grout, soil, gfn, sp, profile(amp * nb))
@@ -191,6 +191,26 @@ def _real_c09(case):
                 err2 = np.max(np.abs(np.array(g.hp_eft) - ref2) / np.maximum(1.0, np.abs(ref2)))
                 if not err2 <= 1e-9:
                     bad.append(f"HYBRID after compute_g_functions() at an unchanged height: simulated EFT deviates from the superposition of the g-function the object now holds by {err2:.3g} (relative)")
+            if n1 * n2 <= 4:
+                # a stored g-function tabulated for ANOTHER borehole radius: the simulation superposes the stored long-time curve
+                # corrected by -ln(rb*/rb) (Eskilson), joined with the short-time response by the library's (separately replayed) join
+                from ghedesigner.ground_heat_exchangers import BaseGHE  # noqa: PLC0415
+
+                rb_tab = 0.09
+                g3 = _mk_real_ghe(n1, n2, H, soil_k, pipe, months, gf_rb=rb_tab)
+                g3.simulate(TimestepType.HYBRID)
+                stored = list(g3.gFunction.g_lts[H])
+                corr = [v - math.log(g3.bhe.b.r_b / rb_tab) for v in stored]
+                gref = BaseGHE.combine_sts_lts(list(g3.gFunction.log_time), corr, g3.radial_numerical.lntts.tolist(), g3.radial_numerical.g.tolist())
+                q3 = np.asarray(g3.hybrid_load.load[2:], dtype=float) * 1000.0
+                t3 = np.asarray(g3.hybrid_load.hour[2:], dtype=float)
+                if not np.any(np.diff(np.concatenate(([0.0], t3))) <= 0):
+                    ref3 = eft_ref(q3, t3, gref, g3.radial_numerical.t_s, TWO_PI * g3.bhe.soil.k, g3.bhe.b.H, nb, g3.bhe.soil.ugt,
+                                   g3.bhe.calc_effective_borehole_resistance(), g3.bhe.m_flow_borehole, g3.bhe.fluid.cp)
+                    e4 = np.max(np.abs(np.array(g3.hp_eft) - ref3) / np.maximum(1.0, np.abs(ref3)))
+                    stats["steps"] += len(ref3)
+                    if not e4 <= 1e-9:
+                        bad.append(f"HYBRID with a g-function tabulated for r_b = {rb_tab} m on a {g3.bhe.b.r_b} m borehole deviates from the superposition of the radius-corrected curve by {e4:.3g} (relative)")
             if hourly:
                 g.simulate(TimestepType.HOURLY)
                 hp = np.array(g.hp_eft)
